@@ -5,11 +5,16 @@
 EXTENDS FailMsg, Json
 CONSTANT Kinds
 VARIABLES row
-Rows == { r \in [kind : Kinds, e : Strs, a : Strs] :
+Rows == { r \in [kind : Kinds \ {"bitseq"}, e : Strs, a : Strs] :
              /\ r.kind = "streq" => r.e # r.a
              /\ r.kind = "nocase" => LowerAll(r.e) # LowerAll(r.a)
              /\ r.kind = "bineq" => Len(r.e) = Len(r.a) /\ r.e # r.a }
-GInit == row \in Rows /\ u = 0
+\* bits-equal kind: every width, operand pairs and masks of the byte lattice for which the check fails (the operands differ
+\* under the mask somewhere in the 64 bits - possibly only above the operand width, then the two fields coincide)
+BitRows == IF "bitseq" \in Kinds
+           THEN { r \in [kind : {"bitseq"}, w : Widths, e : Vals, a : AVals, m : Masks] : And8(r.e, r.m) # And8(r.a, r.m) }
+           ELSE {}
+GInit == row \in (Rows \cup BitRows) /\ u = 0
 GSpec == GInit /\ [][UNCHANGED <<row, u>>]_<<row, u>>
 Dump == PrintT(<<"BEH", ToJson(row)>>)
 =============================================================================
